@@ -33,6 +33,42 @@ def finite_iterator_type(ity):
     return any((first + "<").startswith(f) or first.startswith(f.rstrip("<")) for f in FINITE_ITERS)
 
 
+def range_is_bounded(an, fn, il, body):
+    """A `for _ in a..b` loop is finite, but b may be a number read from the input.  True when the iterator is not a bare integer
+    range; a reason string when the range's end is bounded by a length or a small constant, or when the loop also ends as soon as
+    another finite iterator runs out; None otherwise."""
+    ity = il["iter_ty"].replace("&mut ", "")
+    if not (ity.startswith("core::ops::range::Range<") or ity.startswith("core::ops::range::RangeInclusive<")):
+        return True
+    op = il["next_term"]["args"][0]
+    try:
+        ins, outs, _ = an.analyze(fn, want_obligations=False)
+    except Exception:
+        ins = None
+    if ins is not None and ins[il["head"]] is not None and op.get("k") in ("copy", "move"):
+        st = ins[il["head"]]
+        P = an.cpath(fn, op["pl"], st)
+        ev = ("v", P + ".end")
+        ub = st.ub(ev)
+        if ub is not None and ub <= 1 << 20:
+            return "counts up to at most %d" % ub
+        for y, c in st.out.get(ev, {}).items():
+            if y != ranges.Z and y[0] == "#" and c <= 1 << 20:
+                return "counts up to a bound within %s" % ranges.show_var(y)
+    # an exit that is taken when another (finite) iterator is exhausted
+    for e_ in il["exit_edges"]:
+        if e_ == il["none_edge"] or fn.blocks[e_[1]]["cleanup"]:
+            continue
+        for g in __import__("rqverif.guards", fromlist=["x"]).find_bool_guards(fn, lambda x: df.is_call(x, "Option::<T>::is_none") and df.is_call(x[2][0], "::next")):
+            if g["bb"] in body and (e_ == g["true_edge"] or e_[0] in cfg.dominated_by_edge(fn, g["true_edge"])):
+                return "also ends when %s runs out" % df.show(g["expr"][2][0][2][0], 40)
+        for sw in pt.discr_switches(fn, lambda x, rv: df.is_call(x, "::next")):
+            ne = sw["edges"].get("None")
+            if ne and sw["bb"] in body and sw["bb"] != il["head"] and (e_ == ne or e_[0] in cfg.dominated_by_edge(fn, ne)):
+                return "also ends when %s runs out" % df.show(sw["expr"][2][0], 40)
+    return None
+
+
 def candidates(fn, body):
     """Measures to try: lengths of slice-typed locals and values of unsigned locals / fields that are assigned inside the loop."""
     out = []
@@ -124,7 +160,14 @@ def check_scope(prog, cg, scope, an):
                 continue
             il = ils.get(head)
             if il is not None and finite_iterator_type(il["iter_ty"]):
-                out.append((fn, head, "iterator", True, "draws from a finite iterator (%s)" % il["iter_ty"][:90]))
+                why = range_is_bounded(an, fn, il, body)
+                if why is True:
+                    out.append((fn, head, "iterator", True, "draws from a finite iterator (%s)" % il["iter_ty"][:90]))
+                elif why:
+                    out.append((fn, head, "iterator", True, "%s (%s)" % (why, il["iter_ty"][:60])))
+                else:
+                    out.append((fn, head, "iterator", False, "the loop counts up to a number that is not bounded by the size of anything (a value taken from "
+                                "the input can make it spin for 2^64 rounds) and no exit depends on another iterator running out"))
                 continue
             m, why = prove_loop(an, fn, head, body)
             if m:
